@@ -3,6 +3,7 @@ import json, os
 
 from tlc import *
 from engine import *
+from engine import MUTATING
 
 STORE_INVS = ['InvIndexExact', 'InvIndexChrono', 'InvKeyData', 'InvNoDangling', 'InvIdMap', 'InvTsel', 'InvTombs']
 
@@ -24,11 +25,12 @@ def mc_job(name, scenario, size='s', maxanns=3, maxres=1, prelude=0, workers=8, 
 
 
 def gen_job(name, scenario, prelude, depth=None, simulate=None, simdepth=None, size='s', style=0, reads=(), env=None,
-            per_state=None, sample_mod=1, **kw):
+            per_state=None, sample_mod=1, roundtrips=None, **kw):
     c = dict(Scenario=scenario, Prelude=prelude, Size=size, Reads=list(reads))
     c.update(kw)
     return dict(kind='store_gen', name=name, constants=c, depth=depth, simulate=simulate, simdepth=simdepth, style=style,
-                env=env or {}, per_state=(bool(reads) and not simulate) if per_state is None else per_state, sample_mod=sample_mod)
+                env=env or {}, per_state=(bool(reads) and not simulate) if per_state is None else per_state, sample_mod=sample_mod,
+                roundtrips=roundtrips)
 
 
 def cfg_env(milestone=None, shrink=False):
@@ -123,6 +125,26 @@ def bytes_jobs(tier, seed):
     return jobs
 
 
+def insert_roundtrips(behs, rts, seed):
+    """Every behaviour is extended with round-trip steps: one after the whole history (followed by a second one, so that
+    the reloaded store is itself written and read again) and, for longer histories, one in the middle, after which the
+    history continues on the reloaded store. rts = list of dict(format, layout, compact); the variant used for a
+    behaviour rotates with its index."""
+    out = []
+    for i, b in enumerate(behs):
+        ops = json.loads(b)
+        rt = rts[(i + seed) % len(rts)]
+        op = {'ev': 'RoundTrip', 'a': rt}
+        reads = [o for o in ops if o['ev'] not in MUTATING]
+        muts = [o for o in ops if o['ev'] in MUTATING]
+        new = muts + [op, op] + reads
+        out.append(json.dumps(new))
+        if len(muts) >= 4 and i % 3 == 0:
+            mid = len(muts) // 2 + (i % 2)
+            out.append(json.dumps(muts[:mid] + [op] + muts[mid:] + reads))
+    return out
+
+
 def laws_job(law, n, workers=8, timeout=1500):
     return dict(kind='laws', name=f'laws_{law}_{n}', module='MC_Laws.tla', constants=dict(Law=law, N=n), invariants=['Inv'],
                 properties=[], workers=workers, timeout=timeout)
@@ -169,6 +191,36 @@ def textop_jobs(tier, seed):
     return jobs
 
 
+def RT(fmt, layout='file', compact=False):
+    return dict(format=fmt, layout=layout, compact=compact)
+
+
+JSON_RTS = [RT('json', 'string'), RT('json', 'string', True), RT('json', 'file'), RT('json', 'resources'), RT('json', 'datasets'),
+            RT('json', 'both')]
+
+
+def roundtrip_jobs(prop, tier, seed):
+    """C05 / C11 / C15: round trips appended to (and inserted into) the store histories."""
+    style = seed % 5
+    quick = tier == 'quick'
+    rts = dict(C05=JSON_RTS, C11=[RT('cbor')], C15=[RT('csv')])[prop]
+    if prop == 'C15':
+        style = 0     # identifiers containing the ';' list separator are outside the claim
+    big = dict(MaxAnns=10, MaxRes=3, MaxData=4)
+    jobs = [mc_job('mc_complex_small', 'complex', maxanns=2)]
+    jobs += [gen_job('rt_core_p1', 'core', 1, depth=2, style=style, roundtrips=rts),
+             gen_job('rt_complex_p2', 'complex', 2, depth=2, style=style, roundtrips=rts),
+             gen_job('rt_remove_p4', 'remove', 4, depth=2 if quick else 4, style=style, roundtrips=rts),
+             gen_job('rt_remove_p5', 'remove', 5, depth=1 if quick else 2, style=(style + 1) % 5 if prop != 'C15' else 0, roundtrips=rts, **big),
+             gen_job('rt_remove_p6', 'remove', 6, depth=1 if quick else 2, style=(style + 2) % 5 if prop != 'C15' else 0, roundtrips=rts, **big),
+             gen_job('rt_all_p6', 'all', 6, depth=1, style=(style + 3) % 5 if prop != 'C15' else 0, roundtrips=rts, **big),
+             gen_job('rt_reads_p6', 'remove', 6, depth=1, style=style, reads=['lookup', 'anntext', 'segment'], per_state=True, roundtrips=rts, **big),
+             gen_job('rt_offsets_p7', 'offsets', 7, depth=1, style=style, roundtrips=rts, per_state=True, MaxAnns=12, MaxRes=3),
+             gen_job('rt_sim_all', 'all', 1, simulate=12 if quick else 150, simdepth=6 if quick else 10, size='m', style=style, roundtrips=rts,
+                     MaxAnns=6, MaxData=4, MaxRes=2)]
+    return jobs
+
+
 STORE_RULE = ('behaviours are emitted by TLC from MC_Store.tla (every behaviour of the given depth after a fixed prelude, '
               'plus random walks in -simulate mode); each is replayed on a fresh AnnotationStore and every step is '
               'validated by TLC against Trace.tla (state, raw indices, position index, public API answers)')
@@ -187,6 +239,9 @@ def plan_for(prop, tier, seed, replay_file=None):
     if prop == 'C04':
         return dict(jobs=store_jobs(prop, tier, seed)[:1] + offsets_jobs(tier, seed) + store_jobs(prop, tier, seed)[1:],
                     rule=STORE_RULE, assumptions=STORE_ASSUMPTIONS)
+    if prop in ('C05', 'C11', 'C15'):
+        return dict(jobs=roundtrip_jobs(prop, tier, seed), rule=STORE_RULE + '; every history is extended with serialisation round trips '
+                    'after which it continues on the reloaded store', assumptions=STORE_ASSUMPTIONS)
     if prop == 'C13':
         return dict(jobs=relations_jobs(tier, seed), rule=TABLE_RULE, assumptions=STORE_ASSUMPTIONS, laws='relations')
     if prop == 'C06':
@@ -220,6 +275,8 @@ def run_job(job, prop, tier, seed):
                            per_state=job.get('per_state', False), sample_mod=job.get('sample_mod', 1))
         if not behs:
             raise ToolError(f'generator {job["name"]} produced no behaviours')
+        if job.get('roundtrips'):
+            behs = insert_roundtrips(behs, job['roundtrips'], seed)
         trace = replay(job['name'], behs, style=job.get('style', 0), extra_env=job.get('env'))
         mism, stats = validate(job['name'], trace)
         return dict(traces_validated_against_impl=len(behs), events_validated=stats['events'] - len(behs),
